@@ -10,15 +10,24 @@ var ErrInjected = errors.New("injected I/O fault")
 
 // Reader delivers data in chunks of the given sizes (cycled), optionally returns data together with
 // io.EOF on the last chunk, and fails with ErrInjected once FailAt bytes have been delivered (FailAt < 0: never).
+//
+// Transient: the fault is reported ONCE, together with the data of that call (n > 0, err != nil — allowed by the
+// io.Reader contract), and the stream then goes on delivering the rest of the data; a caller that ignores the error
+// sees a complete, well-formed stream.
 type Reader struct {
 	Data      []byte
 	Chunks    []int
 	DataEOF   bool
 	FailAt    int
+	Transient bool
 	pos, turn int
+	reported  bool
 }
 
 func (r *Reader) Read(p []byte) (int, error) {
+	if r.Transient {
+		return r.readTransient(p)
+	}
 	if r.FailAt >= 0 && r.pos >= r.FailAt {
 		return 0, ErrInjected
 	}
@@ -47,6 +56,35 @@ func (r *Reader) Read(p []byte) (int, error) {
 	r.pos += n
 	if r.DataEOF && r.pos >= len(r.Data) && (r.FailAt < 0 || r.FailAt > len(r.Data)) {
 		return n, io.EOF
+	}
+	return n, nil
+}
+
+func (r *Reader) readTransient(p []byte) (int, error) {
+	if r.pos >= len(r.Data) {
+		return 0, io.EOF
+	}
+	n := len(p)
+	if len(r.Chunks) > 0 {
+		c := r.Chunks[r.turn%len(r.Chunks)]
+		r.turn++
+		if c < n {
+			n = c
+		}
+	}
+	if n < 1 {
+		n = 1
+	}
+	end := r.pos + n
+	if end > len(r.Data) {
+		end = len(r.Data)
+	}
+	n = copy(p, r.Data[r.pos:end])
+	start := r.pos
+	r.pos += n
+	if !r.reported && r.FailAt >= start && r.FailAt < r.pos {
+		r.reported = true
+		return n, ErrInjected
 	}
 	return n, nil
 }
